@@ -215,17 +215,73 @@ def _own(h: Func, a: str, b: str):
 
 
 def _p2_hs(ctx, rep):
+    from ..astutil import deep_inline, square_base
+    from ..tables import flat_order
     h = ctx.ix.func(OP + "_tensor_product_hs_hs")
-    txt = {unparse(n.targets[0]): unparse(n.value) for n in own_nodes(h.node) if isinstance(n, ast.Assign) and isinstance(n.targets[0], ast.Name)}
-    ok = txt.get("from_vec") == "np.kron(hs1.flatten(), hs2.flatten())" and txt.get("d1") == "hs1.shape[0]" and txt.get("d2") == "hs2.shape[0]" \
-        and txt.get("permutation") == "np.kron(np.kron(np.eye(d1), _K(d2, d1)), np.eye(d2))" \
-        and txt.get("system_order") == "[e_sys.name for e_sys in e_sys_list]" and txt.get("size_list") == "[e_sys.dim ** 2 for e_sys in e_sys_list]"
-    rep.check(ok, "P2", h, "vec-permutation of |HS1>> (x) |HS2>>", "kron(vec HS1, vec HS2) reordered by I_d1 (x) K(d2,d1) (x) I_d2, then by subsystem name",
-              "the HS tensor product is not kron of the flattened operands with the d1/d2 commutation padding: %s" % {k: v for k, v in txt.items() if k in ("from_vec", "permutation", "size_list")}, node=h.node)
+    con = "vec-permutation of |HS1>> (x) |HS2>>"
+    defs = {n.targets[0].id: n.value for n in own_nodes(h.node) if isinstance(n, ast.Assign) and len(n.targets) == 1 and isinstance(n.targets[0], ast.Name)}
+    p1, p2 = h.params[0], h.params[1]
 
+    def kron_args(e):
+        if isinstance(e, ast.Call) and (dotted(e.func) or "").split(".")[-1] == "kron" and len(e.args) == 2:
+            return e.args
+        return None
+
+    def eye_of(e):
+        if isinstance(e, ast.Call) and (dotted(e.func) or "").split(".")[-1] in ("eye", "identity") and len(e.args) == 1:
+            return unparse(e.args[0]).replace(" ", "")
+        return None
+    # the vector that is permuted: kron of the row-major flattened operands, first operand first
+    perm_apps = [n for n in own_nodes(h.node) if isinstance(n, ast.BinOp) and isinstance(n.op, ast.MatMult)]
+    fv = None
+    for nm, v in defs.items():
+        e = deep_inline(h, v)
+        ka = kron_args(e)
+        if ka is not None:
+            o1, b1 = flat_order(ctx, ka[0])
+            o2, b2 = flat_order(ctx, ka[1])
+            if o1 and o2:
+                fv = (nm, o1, unparse(b1), o2, unparse(b2))
+    perm = None
+    for nm, v in defs.items():
+        e = deep_inline(h, v)
+        ka = kron_args(e)
+        if ka is not None and kron_args(ka[0]) is not None and eye_of(ka[1]) is not None:
+            inner = kron_args(ka[0])
+            kc = inner[1]
+            if eye_of(inner[0]) is not None and isinstance(kc, ast.Call) and (dotted(kc.func) or "").split(".")[-1] == "_K" and len(kc.args) == 2:
+                perm = (nm, eye_of(inner[0]), [unparse(a).replace(" ", "") for a in kc.args], eye_of(ka[1]))
+    d1, d2 = "%s.shape[0]" % p1, "%s.shape[0]" % p2
+    sl = defs.get("size_list")
+    so = defs.get("system_order")
+    sl_ok = isinstance(sl, ast.ListComp) and len(sl.generators) == 1 and (
+        unparse(sl.elt).replace(" ", "") in ("e_sys.dim**2",) or (square_base(sl.elt) is not None and unparse(square_base(sl.elt)) == "%s.dim" % unparse(sl.generators[0].target)))
+    so_ok = isinstance(so, ast.ListComp) and len(so.generators) == 1 and unparse(so.elt) == "%s.name" % unparse(so.generators[0].target) \
+        and sl is not None and isinstance(sl, ast.ListComp) and unparse(so.generators[0].iter) == unparse(sl.generators[0].iter)
+    if fv is None or perm is None:
+        rep.undecided("P2", h, con, "did not find kron(flatten(hs1), flatten(hs2)) and kron(kron(eye, _K), eye) (found %s / %s)" % (fv, perm))
+        return
+    problems = []
+    if (fv[1], fv[2], fv[3], fv[4]) != ("C", p1, "C", p2):
+        problems.append("the vector is kron(%s-flatten(%s), %s-flatten(%s)); expected the row-major flattenings of %s and %s in this order" % (fv[1], fv[2], fv[3], fv[4], p1, p2))
+    if not (perm[1] == d1 and perm[2] == [d2, d1] and perm[3] == d2):
+        problems.append("the reordering is I_{%s} (x) K(%s) (x) I_{%s}; expected I_d1 (x) K(d2, d1) (x) I_d2 with d1 = %s, d2 = %s" % (perm[1], ", ".join(perm[2]), perm[3], d1, d2))
+    if not sl_ok or not so_ok:
+        problems.append("system_order / size_list are not the names and squared dimensions of the same concatenated system list")
+    rep.check(not problems, "P2", h, con, "kron(vec HS1, vec HS2) reordered by I_d1 (x) K(d2,d1) (x) I_d2, then by subsystem name", "; ".join(problems), node=h.node)
 
 
 # ------------------------------------------------------------------------------ K2
+def _resub(text: str, amap) -> str:
+    """replace parameter names by argument texts in a small index expression"""
+    e = ast.parse(text, mode="eval").body
+
+    class R(ast.NodeTransformer):
+        def visit_Name(self, n):
+            return ast.parse(amap[n.id], mode="eval").body if n.id in amap else n
+    return unparse(R().visit(e))
+
+
 def _k2(ctx, rep):
     f = ctx.ix.func("quara.utils.matrix_util.calc_permutation_matrix")
     # working copies: t = copy.copy(p) / list(p) / p[:] / p.copy() of a parameter
@@ -260,6 +316,32 @@ def _k2(ctx, rep):
                 b = next(iter(base))
                 idx = tuple(sorted(unparse(x.slice) for x in st.targets[0].elts))
                 swaps[b] = (idx, st)
+    # swaps performed through a small local helper `def swap(values, position): values[position-1], values[position] = ...`
+    def _swap_of(st, names):
+        if isinstance(st, ast.Assign) and len(st.targets) == 1 and isinstance(st.targets[0], ast.Tuple) and isinstance(st.value, ast.Tuple) \
+                and len(st.targets[0].elts) == 2 and len(st.value.elts) == 2:
+            tl = [unparse(x) for x in st.targets[0].elts]
+            vl = [unparse(x) for x in st.value.elts]
+            base = {unparse(x.value) for x in st.targets[0].elts + st.value.elts if isinstance(x, ast.Subscript)}
+            if len(base) == 1 and tl == vl[::-1] and tl[0] != tl[1] and next(iter(base)) in names:
+                return next(iter(base)), tuple(sorted(unparse(x.slice) for x in st.targets[0].elts))
+        return None
+    for st in loop.body:
+        c_ = st.value if isinstance(st, ast.Expr) and isinstance(st.value, ast.Call) else None
+        if c_ is None or not isinstance(c_.func, ast.Name) or c_.func.id not in f.nested:
+            continue
+        hfn = f.nested[c_.func.id]
+        hb = [x for x in hfn.node.body if not (isinstance(x, ast.Expr) and isinstance(x.value, ast.Constant))]
+        if len(hb) != 1 or len(c_.args) != len(hfn.params) or c_.keywords:
+            continue
+        sw = _swap_of(hb[0], set(hfn.params))
+        if sw is None:
+            continue
+        amap = {p_: unparse(a_) for p_, a_ in zip(hfn.params, c_.args)}
+        lst = amap.get(sw[0])
+        idx = tuple(sorted(_resub(i_, amap) for i_ in sw[1]))
+        if lst is not None:
+            swaps[lst] = (idx, st)
     for t, p in sorted(copies.items()):
         mutated = t in swaps
         stale = [x for x in body_nodes if isinstance(x, ast.Name) and x.id == p and isinstance(x.ctx, ast.Load)]
